@@ -29,6 +29,7 @@ static void observe(qvector_t *v, const model_t *m, const char *after) {
     errno = 0; if (v->addlast(v, NULL) || errno != EINVAL) vc_viol("array:einval", "addlast(NULL) not refused with EINVAL");
     errno = 0; if (v->addat(v, 0, NULL) || errno != EINVAL) vc_viol("array:einval", "addat(NULL) not refused with EINVAL");
     if ((int)v->size(v) != n) vc_viol("array:size", "after %s: size() = %zu, expected %d", after, v->size(v), n);
+    { void *a = v->toarray(v, NULL); if ((a != NULL) != (n > 0)) vc_viol("array:toarray", "after %s: toarray without a size pointer disagrees with %d elements", after, n); free(a); }
     if (v->max < v->num) vc_viol("array:capacity", "after %s: capacity %zu below element count %zu", after, v->max, v->num);
     for (int i = -n - 2; i <= n + 2; i++) for (int nm = 0; nm < 2; nm++) {
         errno = 0; void *d = v->getat(v, i, nm); int e = errno;
